@@ -802,7 +802,14 @@ func validateFieldMapping(predecessorType reflect.Type, successorType reflect.Ty
 	return &handlerPair{
 		invoke: checker,
 		transform: func(input streamReader) streamReader {
-			return packStreamReader(schema.StreamReaderWithConvert(input.toAnyStreamReader(), checker))
+			// the chunk type has to stay map[string]any: that is what the fan-in merge and the field mapping converter expect
+			return packStreamReader(schema.StreamReaderWithConvert(input.toAnyStreamReader(), func(value any) (map[string]any, error) {
+				checked, err := checker(value)
+				if err != nil {
+					return nil, err
+				}
+				return checked.(map[string]any), nil
+			}))
 		},
 	}, nil
 }
